@@ -48,7 +48,7 @@ UNITS.append(U(name='htp_connp_res_data', props=['C09', 'C16', 'C01'], kind='con
                             'termination of the driver loop is NOT proved here (no decreases clause): see DESIGN C09',
                             'callbacks return OK/DECLINED/STOP/ERROR only']))
 
-UNITS.append(U(name='htp_connp_RES_IDLE', props=['C04', 'C09', 'C01'], kind='contract', src=['htp_response.c', 'htp_list.c'], enforce='htp_connp_RES_IDLE',
+UNITS.append(U(name='htp_connp_RES_IDLE', props=['C04', 'C09', 'C05', 'C01'], kind='contract', src=['htp_response.c', 'htp_list.c'], enforce='htp_connp_RES_IDLE',
                replace=['htp_connp_tx_create/contract_site_htp_connp_tx_create', 'htp_tx_state_request_complete/contract_site2_htp_tx_state_request_complete',
                         'htp_tx_state_response_start/contract_site_htp_tx_state_response_start', 'htp_uri_alloc', 'bstr_dup_c', 'htp_log'],
                contracts_inc=INC, harness=H % 'htp_connp_RES_IDLE', defs={'quick': {'CHUNK_CAP': 4096, 'LCAP': 8}, 'thorough': {'CHUNK_CAP': 1048576, 'LCAP': 64}},
